@@ -29,6 +29,12 @@ CLAIMS = {
               "re-delivery after arbitrary intermediate histories.", "DESIGN.md §3 C07"),
  "C08": claim("sync_group_metadata_from_mls copies epoch, name, description, admins, image fields, nostr group id and relays from the MLS state and nothing else; every merge site is followed by a sync before Ok; the in-memory save_group keeps the nostr-id index exact.",
               "'after every API call' over all histories; SQLite unique index; routing lookup; known finding F12.", "DESIGN.md §3 C08"),
+ "C09": claim("for the IN-MEMORY back end, the per-entry decisions of snapshot and rollback on the real closures and statements: which rows of each table a snapshot copies (exactly this group's, under their own keys, unchanged), which rows a rollback drops and which it keeps (exactly this group's dropped, every other group's kept), the group record / Nostr-id index / relays written back from the snapshot with the index staying exact (lemma); in mdk-core, rollback_to_epoch restores the snapshot found for this group and epoch, releases exactly the later ones and nothing else. For the SQLite back end NO proof: two bounded stand-ins (real SQLite, stated scope) compare a rollback with the state at snapshot time and with the memory back end.",
+              "the frame of the whole restore function (tables it does not mention: the adapter chains `iter().filter().map().collect()` / `retain` are std and trusted, the closures they apply are what is proved); key packages / signature keys; nesting of snapshots; the SQLite restore (SQL text: bounded only).", "DESIGN.md §3 C09"),
+ "C10": claim("the IN-MEMORY back end against the storage contract the orchestration proofs assume (the reference model): every record table (dedup records, welcomes, processed welcomes, groups and their Nostr-id index, relays, per-epoch secrets, messages incl. the eviction step of save_message) is an upsert / lookup under exactly the documented key with a frame condition; invalidation / retry / pending selections choose exactly the records the contract names; both listing comparators equal the documented total orders (Kani, complete) and the memory listing and last_message use them; page windows and limit checks of BOTH back ends; the SQLite row decoders map each column to its field. The SQLite statements themselves: NO proof, 13 bounded stand-ins (real SQLite vs. real memory back end vs. the contract, stated scopes).",
+              "SQL text (bounded only); capacity eviction of the LRU caches ('within the documented limits'); operation SEQUENCES (each operation is verified against the model separately; composition is by the model); std sort / iterator adapters.", "DESIGN.md §3 C10"),
+ "C11": claim("the two restart mechanisms that are Rust code: ensure_hydrated's loop re-creates the snapshot queue from storage within the retention bound, keeping the most recent in order and releasing the rest; parse_snapshot_name gives a re-loaded snapshot the epoch, commit id and group of its name; the builder passes retention / TTL through and prunes by age at build(); is_better_candidate requests hydration of the group's queue first. The obligation that a re-loaded snapshot still carries its commit timestamp FAILS on the unchanged tree (known finding F16: race resolution does not survive a restart). Two bounded stand-ins (a history with two restarts on a database file; same-second snapshots read back in order).",
+              "everything that lives in the database file (SQL, migrations: bounded only); the two-run comparison over histories; pending commits / proposals / key packages across restarts (OpenMLS storage provider).", "DESIGN.md §3 C11"),
  "C15": claim("group-data extension from_raw accepts exactly the fixed field lengths and version != 0 and copies every field; deserialize rejects trailing bytes; key-package parse order (kind, tags, content, identity binding); h-tag: exactly one tag of 64 hex characters; ContentEncoding accepts only an explicit recognised tag and has no default.",
               "as_raw (the encoding half: no round-trip claim); string-level tag grammar inside validate_key_package_tags, TLS codec of tls_codec/OpenMLS, imeta text format.", "DESIGN.md §3 C15, §8.2"),
  "C16": claim("re-processing a processed welcome returns the stored one and writes nothing; a failed one is refused; preview failure writes only the Failed record; Pending after process, Active + self-update Required only after accept, Inactive after decline; welcome and dedup record saved together; nothing is written before the last input check.",
@@ -42,9 +48,6 @@ CLAIMS = {
               "how the queue is obtained from the Mutex<HashMap>; back-end side of release / prune / re-insert (SQL); restarts.", "DESIGN.md §3 C20"),
 }
 NA = {
- "C09": "rollback restore is SQL statements / HashMap::retain closures behind parking_lot: no function contract within reach of Verus or Kani (DESIGN §4)",
- "C10": "differential equivalence of a hash-map store and a SQL schema over operation sequences; one side is SQL (DESIGN §4); the shared comparators are proved under C18",
- "C11": "two-run hyperproperty over histories and a database file; in-reach kernel is string formatting code neither verifier reasons about (DESIGN §4)",
  "C12": "quantifies over crash points inside SQLite transactions; no function contract expresses it (DESIGN §4)",
  "C13": "bytes of database files, SQLCipher pragmas, Unix modes, keyring races: outside any Rust function contract (DESIGN §4)",
  "C14": "subject is the tracing call sites, which extraction rule X1 deletes and which crash Kani; needs information-flow analysis, a different family (DESIGN §4)",
